@@ -1,3 +1,5 @@
 import MpirProofs.Lemmas.Base
 import MpirProofs.Lemmas.Kernels
 import MpirProofs.Props.C03
+import MpirProofs.Lemmas.DivWord
+import MpirProofs.Props.C02_word
